@@ -5,6 +5,7 @@
 From Coq Require Import List ZArith Lia Bool Arith.
 Require Import HP1 Cao1 Cao5 Cao6 Rooms Spec Valid Node NoPanic WfCheck RoomThms RoomSites WfPres Solve.
 Require EngP2.
+Require Json SimpleRead SimpleValid.
 Import ListNotations.
 Open Scope nat_scope.
 
@@ -92,8 +93,27 @@ Proof.
   apply (run_panic_sites courses parts _ _ (valid_one _ _ V) (v_minmax _ _ V) (fun _ => False) (fun s' Hs => match Hs with end) Hg nd s (wf2_wf courses nd Hwf) H).
 Qed.
 
-Check C10_float_sane_checker. Check C10_node. Check C10_node_class. Check C10_root_wf. Check C10_children_wf. Check C10_search. Check C10_no_failure. Check C10_never_stuck. Check C10_node_noroom.
+(* "valid instance" pinned down to input documents: a simple-format document that the program accepts (SimpleRead.simple_read parses it and
+   check_data_consistency = consistentb passes; both compared exactly with the code, C15) and that satisfies the three clauses the program
+   does not check (unchecked_okb: no course twice in a choice list, participants * max penalty < WEIGHT_OFFSET, somebody has choices)
+   is a valid instance, so no generated subproblem ends in a panic site *)
+Theorem C10_document_valid : forall data ps cs,
+  SimpleRead.simple_read data = Json.ROk (ps, cs) -> SimpleRead.consistentb ps cs = true -> SimpleValid.unchecked_okb ps = true ->
+  Valid (map SimpleValid.to_course cs) (map SimpleValid.to_part ps).
+Proof. exact SimpleValid.accepted_valid. Qed.
+Theorem C10_document_node : forall data ps cs esize shrinkf rooms nd s,
+  SimpleRead.simple_read data = Json.ROk (ps, cs) -> SimpleRead.consistentb ps cs = true -> SimpleValid.unchecked_okb ps = true ->
+  FloatSane (map SimpleValid.to_course cs) esize shrinkf rooms -> Wf2 (map SimpleValid.to_course cs) nd ->
+  run_full (map SimpleValid.to_course cs) (map SimpleValid.to_part ps) esize shrinkf rooms nd <> Panic s.
+Proof.
+  intros data ps cs esize shrinkf rooms nd s Hr Hc Hu FS Hwf.
+  apply (C10_node _ _ esize shrinkf rooms nd s (SimpleValid.accepted_valid data ps cs Hr Hc Hu) FS Hwf).
+Qed.
+
+Check C10_document_valid. Check C10_document_node. Check C10_float_sane_checker. Check C10_node. Check C10_node_class. Check C10_root_wf. Check C10_children_wf. Check C10_search. Check C10_no_failure. Check C10_never_stuck. Check C10_node_noroom.
 Print Assumptions C10_node.
+Print Assumptions C10_document_valid.
+Print Assumptions C10_document_node.
 Print Assumptions C10_node_class.
 Print Assumptions C10_children_wf.
 Print Assumptions C10_search.
